@@ -11,6 +11,9 @@ RULE = ('cases = calls of get_power_spectral_density_matrix on complex observati
         'time_dim != -1 for mask-free and source-axis masks, normalize on/off, compared with the explicit-loop definition in the '
         'canonical layout moved to the requested layout; plus condition_covariance against its formula; non-trivial = non-default '
         'axis layout or boolean/zero mask or leading axes; distinct by (mask kind, layout, shape)')
+REACH_REQUIRED = {'PSD: source axis rolled (source_dim < -2)': ('extraction/beamformer.py', r'psd = np\.rollaxis\(psd, -3'),
+                  'PSD: mask without source axis': ('extraction/beamformer.py', r'mask = np\.expand_dims\(mask, -2\)'),
+                  'PSD: boolean mask cast': ('extraction/beamformer.py', r'mask = np\.asarray\(mask, dtype=np\.float64\)')}
 DECIDING = ['C10.value', 'C10.structure', 'C10.purity', 'C10.condition']
 MIN_DECIDED = {'quick': 300, 'thorough': 3000}
 ARM = ()
